@@ -86,8 +86,15 @@ def gen_script(rng, sid):
             steps.append({"op": "fault", "fault": {"kind": rng.choice(["cut", "trunc"]), "batches": rng.randint(0, 1), "records": rng.randint(0, 2), "extra": rng.choice([0, 3])}})
         steps.append({"op": "fetch", "n": rng.randint(1, 6)})
     steps.append({"op": "fetch", "n": 40})      # drain: until FetchMessage times out
-    return {"id": sid, "log": log, "logStart": logstart, "start": start, "qcap": rng.choice([1, 1, 2, 100]),
-            "fetchVersion": rng.choice([2, 5, 10, 10]), "maxBytes": rng.choice([1 << 20, 1 << 20, 200, 400]), "steps": steps}
+    fv = rng.choice([2, 5, 10, 10])
+    # (before fetch v3 a broker does not return a first batch larger than MaxBytes whole: a MaxBytes below the largest batch
+    # is a configuration in which no client can make progress, so small limits are used with v3+ only)
+    mb = rng.choice([1 << 20, 1 << 20, 200, 400, 700]) if fv >= 3 else 1 << 20
+    sc = {"id": sid, "log": log, "logStart": logstart, "start": start, "qcap": rng.choice([1, 1, 2, 100]),
+          "fetchVersion": fv, "maxBytes": mb, "steps": steps}
+    if rng.random() < 0.15:
+        sc["chunk"] = rng.choice([3, 7, 16, 33])
+    return sc
 
 
 def directed():
@@ -137,6 +144,24 @@ def directed():
                 out.append({"id": "D-midbatch-%s-r%d-%s" % (fmt, r, how), "log": big + [B(8, 9, [8, 9], "v2" if fmt == "v2" else "v1w", 0 if fmt == "v2" else 1)],
                             "logStart": 0, "start": 5 if how == "start" else -2, "qcap": 1,
                             "fetchVersion": 10 if fmt == "v2" else 2, "maxBytes": 1 << 20, "steps": steps + drain})
+    # many records of varied sizes in one batch, every codec (the decompressed records are parsed through a small buffer, so
+    # multi-byte varints straddle its refills), and uncompressed responses arriving in small pieces
+    for k, (fmt, codec, fv) in enumerate([("v2", 0, 10), ("v2", 1, 10), ("v2", 2, 10), ("v2", 3, 10), ("v2", 4, 10), ("v1w", 1, 2), ("v1w", 2, 2)]):
+        for start in (-2, 17):
+            out.append({"id": "D-many-%s-c%d-s%d" % (fmt, codec, start), "log": [B(0, 59, list(range(60)), fmt, codec), B(60, 61, [60, 61], fmt, codec)], "logStart": 0,
+                        "start": start, "qcap": 100, "fetchVersion": fv, "maxBytes": 1 << 20, "steps": [{"op": "fetch", "n": 100}]})
+    for c in (1, 2, 3, 5, 7, 13, 16, 17, 31, 64):
+        for fv in (10, 2):
+            lg = [B(0, 5, [0, 1, 2, 3, 4, 5]), B(6, 9, [6, 7, 8, 9])] if fv == 10 else [B(o, o, [o], "v1") for o in range(8)]
+            out.append({"id": "D-chunk-%d-v%d" % (c, fv), "log": lg, "logStart": 0, "start": -2, "qcap": 100, "fetchVersion": fv,
+                        "maxBytes": 1 << 20, "chunk": c, "steps": [{"op": "fetch", "n": 40}]})
+    # a slow consumer: the fetcher is blocked on the full queue until after the deadline derived from MaxWait (500 ms in the
+    # driver), so the end of the response is reached "too late" (RequestTimedOut, retried): the position must still advance
+    for qc in (1, 2):
+        for ms in (700, 1300):
+            for fv, lg in ((10, [B(0, 5, [0, 1, 2, 3, 4, 5]), B(6, 7, [6, 7])]), (2, [B(o, o, [o], "v1") for o in range(7)])):
+                out.append({"id": "D-slow-consumer-q%d-%d-v%d" % (qc, ms, fv), "log": lg, "logStart": 0, "start": -2, "qcap": qc, "fetchVersion": fv,
+                            "maxBytes": 1 << 20, "steps": [{"op": "fetch", "n": 1}, {"op": "sleep", "ms": ms}, {"op": "fetch", "n": 2}, {"op": "sleep", "ms": ms}] + drain})
     # leader migration and NotLeaderForPartition
     out.append({"id": "D-leader-move", "log": L1, "logStart": 0, "start": -2, "qcap": 1, "fetchVersion": 10, "maxBytes": 1 << 20,
                 "steps": [{"op": "fetch", "n": 2}, {"op": "moveleader", "to": 2}] + drain})
